@@ -174,7 +174,7 @@ def c18(tier, seed):
         for l in range(0, 3 * n + 3):
             for api in ("try_from_slice", "try_from_mut_slice"):
                 rows.append({"api": api, "n": n, "l": l, "k": 0, "m": 0})
-        for api in ("array_roundtrip", "uninit_assume_init"):
+        for api in ("array_roundtrip", "uninit_assume_init", "const_transmute"):
             rows.append({"api": api, "n": n, "l": n, "k": 0, "m": 0})
     if tier != "quick":
         for n in (16, 97):
